@@ -18,17 +18,25 @@ EXTRA_PATH = ('vlib/fakecourier',)
 RULE = (
     'a case is (prefetch size 1-4, requested batch size 1-5, generator length 0-8, failure at every '
     'position or none, optional re-initialisation after r requests, optional second requester that '
-    're-initialises / stops the prefetch / shuts down after r requests, schedule). Non-trivial = at '
+    're-initialises / stops the prefetch / shuts down after r requests, or re-initialises while a '
+    'request of the first client is parked on a slow element of the first generator (gate at every '
+    'element position, opened when the other initialisation is issued or has stopped the first '
+    'generator), schedule). Non-trivial = at '
     'least 2 next-batch requests and the prefetch thread was pre-empted against a request at '
     'statement level; distinct = (configuration, schedule trace) hash')
 ASSUMPTIONS = [
     'the server object is built on the transport stand-in but not started; its bound handlers are invoked directly (what Courier would do on its handler threads)',
     'a client stops requesting at the first terminal marker (end marker or exception), like CourierClient.async_iterate',
     'with two concurrent requesters on one generator each sees an increasing subsequence; exactly-once is checked on the union',
+    'the server cannot tell clients apart: a request ISSUED after another client installed a new generator is served from the new generator (not flagged); only a response that itself spans the replacement is judged (no terminal marker and not a full batch, or an end marker of a queue it did not dequeue from)',
     'scheduler assumptions as in C04',
 ]
 REQUIRED = ['schedules', 'line_preemptions', 'batches', 'undisturbed_runs', 'reinit_runs',
-            'concurrent_runs', 'failure_runs', 'server_threading_shim']
+            'concurrent_runs', 'failure_runs', 'server_threading_shim', 'blocked_reinit_runs',
+            'requests_in_flight_at_reinit', 'generator_replaced_during_request']
+# Root cause key of the audited defect: _next_batch reads self._generator for
+# get_batch() and again for the terminal-marker decision without the generator lock.
+K_REINIT_MIX = 'reinit-mixes-generators-unlocked-second-read'
 CHUNK_TIMEOUT_S = {'quick': 300, 'thorough': 3000}
 
 
@@ -50,6 +58,13 @@ def variants(cfg, rng):
     out.append(dict(cfg, reinit_at=r))
     for kind in ('init', 'stop_prefetch', 'shutdown'):
       out.append(dict(cfg, r2={'kind': kind, 'after': r}))
+  # a request of R1 parked on a slow element of g0 while R2 initialises g1
+  if n:
+    for gate_at in range(n + 1):
+      g = [dict(cfg['gens'][0], gate_at=gate_at), cfg['gens'][1]]
+      for after in sorted({0, gate_at // cfg['batch']}):
+        out.append(dict(cfg, gens=g, r2={'kind': 'init_while_blocked', 'after': after,
+                                         'gate': rng.choice(['issue', 'stopped'])}))
   # failure in the second generator after a re-initialisation
   n1 = cfg['gens'][1]['n']
   out.append(dict(cfg, reinit_at=1, gens=[cfg['gens'][0], {'n': n1, 'fail_at': n1 // 2}]))
@@ -74,6 +89,12 @@ def scenario(case):
 
 
 def mechanism(case, kind, detail):
+  # Audited defect: only when the case has a second client initialising a generator
+  # and the judged response spans the replacement of the generator object.
+  if (kind in ('short_batch_without_marker', 'end_marker_of_other_generator')
+      and isinstance(detail, dict) and detail.get('replaced')
+      and (case.get('r2') or {}).get('kind') in ('init', 'init_while_blocked')):
+    return K_REINIT_MIX
   # Known finding: the partially filled batch is dropped when the generator
   # failure arrives while the blocking batch get is waiting.  Signature: the
   # received elements are a prefix of the expected ones and fewer than one
@@ -108,6 +129,11 @@ def run_one(ctx, case):
   sc = scenario(case)
   ctx.count({'plain': 'undisturbed_runs', 'failure': 'failure_runs',
              'reinit': 'reinit_runs'}.get(sc, 'concurrent_runs'))
+  if sc == 'r2-init_while_blocked':
+    ctx.count('blocked_reinit_runs')
+    ctx.count('requests_in_flight_at_reinit', info.get('in_flight_at_reinit', 0))
+  ctx.count('generator_replaced_during_request',
+            sum(1 for e in log if e[0] == 'batch' and len(e) > 3 and e[3].get('replaced')))
   cfg_key = {k: v for k, v in case.items() if k != 'sched_seed'}
   n_req = sum(1 for e in log if e[0] == 'batch')
   ctx.case((runner.stable_hash(cfg_key), sched.trace_hash()),
